@@ -841,6 +841,21 @@ brk('c04_relation_rewritten', 'C04', PAR, '''                            Some(op
                             ctx.start().deref(),
                             None,
                             format!("Incomplete `RelationContext`''')
+brk('c13_hex_sign_unrecognised', 'C13', PAR, '''        } else if let Some(string) = string.strip_prefix("-0x") {
+            // `from_str_radix` wants the sign directly in front of the digits
+            i64::from_str_radix(&format!("-{string}"), 16)
+        } else {''', '''        } else {''')
+brk('c13_double_overflow_unchecked', 'C13', FUN, '''            if parsed.is_infinite()
+                && !spelled.eq_ignore_ascii_case("inf")
+                && !spelled.eq_ignore_ascii_case("infinity")
+            {''', '''            if false && spelled.is_empty() {''')
+neu('n_double_overflow_is_finite_form', 'C13 C02', FUN, '''            if parsed.is_infinite()
+                && !spelled.eq_ignore_ascii_case("inf")
+                && !spelled.eq_ignore_ascii_case("infinity")
+            {''', '''            let names_infinity =
+                spelled.eq_ignore_ascii_case("inf") || spelled.eq_ignore_ascii_case("infinity");
+            if !parsed.is_finite() && !parsed.is_nan() && !names_infinity {''')
+
 
 
 if __name__ == '__main__':
